@@ -117,7 +117,12 @@ def wrap_chain_manager_step(fn):
         finally:
             try:
                 after = list(self.actively_fetching_blocks_from_peers)
-                new = [p for (t, p) in after if (t, p) not in before]
+                # the step appends at most one entry (possibly equal to an existing one: same peer, same second)
+                extra = list(after)
+                for x in before:
+                    if x in extra:
+                        extra.remove(x)
+                new = [p for (t, p) in extra]
                 stage = "sent" if new else ("filtered" if after != before else "idle")
                 end(seq, "step", now=current_time, stage=stage, chosen=_peer_key(new[0]) if new else None,
                     post=node_state(self.local_peer, current_time))
